@@ -38,7 +38,9 @@ def place_demo():
             shutil.copy(os.path.join(mdir, 'demo', f), dst)
     tests = [f for f in os.listdir(mdir) if f.endswith('_test.go')]
     if tests:
-        cand = next((t for t in locs if ('/' in t or t.endswith('.go')) and not t.startswith('/') and t not in tests), None)
+        cand = next((t for t in locs if ((t.endswith('/') and '/' in t) or t.endswith('_test.go')) and not t.startswith('/') and t not in tests and '*' not in t), None)
+        if cand and os.path.exists(os.path.join(tree, cand)) and os.path.isfile(os.path.join(tree, cand)):
+            cand = None
         if cand is None:
             m = re.search(r'go test.*?\s(\.[\w./-]*)\s*$', cmd.strip())
             cand = m.group(1) if m else '.'
@@ -79,7 +81,7 @@ verdict = ('VIOLATION (%s): %s' % (tier, '; '.join(l.strip() for l in lines if l
 out = os.path.join(V, 'seeded', sid)
 shutil.rmtree(out, ignore_errors=True)
 shutil.copytree(mdir, out)
-meta.update(dict(property=prop, confirmed=confirmed, confirm_runs=ran, detected_by=verdict, check_wall_s=round(time.time() - t0),
+meta.update(dict(check_error_tail=(o_c[-1500:] if 'ERROR' in o_c else ''), property=prop, confirmed=confirmed, confirm_runs=ran, detected_by=verdict, check_wall_s=round(time.time() - t0),
                  what_ran='bin/eval_mutant.py: demo on clean worktree of /repo HEAD, git apply patch.diff, go build with and without -tags verif, bin/baseline_check.sh <tree>, demo again, VERIF_REPO=<tree> bin/check %s --tier %s' % (prop, tier)))
 json.dump(meta, open(os.path.join(out, 'meta.json'), 'w'), indent=1)
 sh('git -C /repo worktree remove --force %s' % tree)
